@@ -31,7 +31,11 @@ type ErrV struct{ Msg string }
 
 type Iface struct{ V Val }
 
-type FuncV struct{ Fn *ssa.Function }
+// FuncV is a function value; Bound holds the values of its free variables (closures).
+type FuncV struct {
+	Fn    *ssa.Function
+	Bound []Val
+}
 
 // Top is an unknown value; Why says where precision was lost.
 type Top struct{ Why string }
